@@ -54,6 +54,9 @@ def run(ctx):
         from .. import ieee
         if ieee.is_ieee_replay(ctx.replay):
             return ieee.replay(ctx, ctx.replay)
+        if "abs-geom " in open(ctx.replay).read():       # a block-seek matrix replay (vlib/seekmatrix.py): re-judged by `sfmodel abs`
+            from .. import absreplay
+            return absreplay.replay(ctx, ctx.replay)
         return ctx.replay_script(ctx.replay)
     variant_name = "sse2"
     # ---- 1. tables from the running library -> Generated -> theorems re-checked ----
@@ -172,3 +175,7 @@ def run(ctx):
     from .. import ieeecross, g711order
     ieeecross.run(ctx)
     g711order.run(ctx)
+
+    # ---- 7. the IMA / MS ADPCM decoders at every position a seek can reach: library-written files, the deterministic block-seek matrix judged against the REFERENCE decoders (vlib/seekmatrix.py) ----
+    from .. import seekmatrix
+    seekmatrix.run(ctx, "C20")
